@@ -647,3 +647,11 @@ class P(Prop):
         for r in (0.5, 1.0, 2.0, 5.5):
             if r != case["radius"]:
                 yield dict(case, radius=r)
+
+
+# ---- tie to the source by translation (tools/py2lean.py -> lean/TracklibVerif/Gen/Geometry.lean, regenerated on every run)
+P.tie_modules = ["TracklibVerif.Tie.C10"]
+P.theorems = P.theorems + [
+    ("TracklibVerif.Tie.C10", "TV.Tie.C10.tie_proj_segment", "the Lean translation of the CURRENT source of geometry.proj_segment (with cartesienne, projection_droite) equals the model's projSegment on all arguments, exceptions included"),
+    ("TracklibVerif.Tie.C10", "TV.Tie.C10.tie_projection_droite", "the translation of the CURRENT source of geometry.projection_droite equals the model's projectionDroite on all arguments"),
+]
